@@ -100,6 +100,8 @@ type BlockResult struct {
 	// EventKinds counts "<type>/<first attribute key>" of all ABCI events of the block
 	// (reach probes only; events are not consensus data).
 	EventKinds map[string]int
+	// Events are all ABCI events of the block in order (begin block, transactions, end block).
+	Events []abcitypes.Event
 }
 
 // Propose makes the replica build a proposal block (PrepareProposal path).
@@ -169,6 +171,7 @@ func (r *Replica) Apply(block *cmttypes.Block, seenCommit *cmttypes.Commit) *Blo
 	res.TxResults = resp.DeliverTxs
 	res.EventKinds = map[string]int{}
 	countEvents := func(evs []abcitypes.Event) {
+		res.Events = append(res.Events, evs...)
 		for _, ev := range evs {
 			for _, a := range ev.Attributes {
 				res.EventKinds[ev.Type+"/"+string(a.Key)]++
